@@ -135,12 +135,20 @@ async fn one_run(seed: u64, idx: u64, paths: Vec<ScionPath>, src: IsdAsn, dst: I
         started_after_drop: AtomicUsize::new(0),
         per_dst: Mutex::new(Default::default()),
     });
-    let scenario = r.below(4); // 0 plain, 1 stop during wait, 2 drop manager, 3 idle expiry
+    let scenario = r.below(5); // 0 plain, 1 stop during wait, 2 drop manager, 3 idle expiry, 4 failing retries
+    if scenario == 4 {
+        // lookups keep failing / coming back empty and are retried every few milliseconds; callers
+        // keep arriving, some while a retry is in flight: each of them must be released
+        *script.outcome.lock().unwrap() = *r.pick(&[Outcome::Empty, Outcome::Fail]);
+        script.millis.store(*r.pick(&[2u64, 5, 10]), Ordering::SeqCst);
+    }
     let cfg = MultiPathManagerConfig::default()
-        .with_min_refetch_delay(Duration::from_millis(if scenario == 2 { 20 } else { 60_000 }))
-        .with_refetch_interval(Duration::from_millis(if scenario == 2 { 20 } else { 3_600_000 }))
+        .with_min_refetch_delay(Duration::from_millis(if scenario == 2 { 20 } else if scenario == 4 { 3 } else { 60_000 }))
+        .with_refetch_interval(Duration::from_millis(if scenario == 2 { 20 } else if scenario == 4 { 3 } else { 3_600_000 }))
         .with_min_expiry_threshold(Duration::from_secs(60))
         .with_max_idle_period(Duration::from_millis(if scenario == 3 { 15 } else { 3_600_000 }));
+    // retries after a failed lookup every 3-6 ms in scenario 4 (the backoff has no public setter)
+    let cfg = if scenario == 4 { scion_stack::path::manager::verif_hooks::config_with(cfg, 100, 64, (0.003, 0.006, 1.5, 0.0)) } else { cfg };
     let mut strategy = PathStrategy::default();
     let _ = &mut strategy;
     let mgr = MultiPathManager::new(cfg, Fetch(script.clone()), strategy).expect("config");
@@ -211,6 +219,21 @@ async fn one_run(seed: u64, idx: u64, paths: Vec<ScionPath>, src: IsdAsn, dst: I
         }
         _ => {}
     }
+    if scenario == 4 {
+        // late callers: they arrive spread over ~60 ms, i.e. before, during and between retries
+        let n_late = r.range(3, 10);
+        for c in 0..n_late {
+            tokio::time::sleep(Duration::from_micros(r.range(200, 9000))).await;
+            let mgr = mgr.clone();
+            let script = script.clone();
+            handles.push(tokio::spawn(async move {
+                let in_flight = script.started.load(Ordering::SeqCst) != script.finished.load(Ordering::SeqCst) + script.cancelled.load(Ordering::SeqCst);
+                let res = mgr.path(src, dst, now).await;
+                script.trace.lock().unwrap().push(format!("late-caller-{}:{}:{}", c, if in_flight { "during-retry" } else { "between-retries" }, if res.is_ok() { "path" } else { "error" }));
+                (res.is_ok(), 0)
+            }));
+        }
+    }
     // wait for the callers
     let t0 = Instant::now();
     let mut ok = 0;
@@ -229,7 +252,11 @@ async fn one_run(seed: u64, idx: u64, paths: Vec<ScionPath>, src: IsdAsn, dst: I
             Ok(Err(e)) => violations.push(("panic:caller-task".into(), format!("caller {c}: {e}"))),
             Err(_) => {
                 let in_flight = script.started.load(Ordering::SeqCst) != script.finished.load(Ordering::SeqCst) + script.cancelled.load(Ordering::SeqCst);
-                if in_flight {
+                if scenario == 4 && script.finished.load(Ordering::SeqCst) >= 20 {
+                    // retries never stop in this scenario: judged on logical progress instead - the
+                    // caller is still parked although many lookups have completed since it arrived
+                    violations.push(("waiter-not-released:failing-retries".into(), format!("caller {c} still waits after {} lookups ended {first_outcome:?}-like (retry every few ms, {} s)", script.finished.load(Ordering::SeqCst), watchdog.as_secs())));
+                } else if in_flight {
                     inconclusive = Some("watchdog fired while a lookup was still running".to_string());
                 } else {
                     violations.push(("waiter-not-released".into(), format!("caller {c} of {n_callers} still waits {}s after the last lookup finished (scenario {scenario}, first lookup {first_outcome:?})", watchdog.as_secs())));
@@ -376,7 +403,7 @@ pub fn run(args: &Args, mon: &mut Mon) -> (String, Vec<&'static str>) {
         }
     });
     (
-        format!("{n} runs of the real MultiPathManager with its real worker tasks (public API, scripted PathFetcher whose lookups take 0-7 scheduler yields and 0-10 ms and end with paths / empty / error), half on current-thread, half on 4-worker multi-thread tokio runtimes: 1-11 concurrent callers of path() (a quarter trying cached_path() first) with random yields/sleeps before and between calls, in four scenarios: plain (followed by 12 rounds of 4 barrier-released simultaneous first requests for fresh pairs), stop_managing_paths during the wait followed by traffic for other pairs and a new request for the same pair, drop of the last manager handle (workers refetching every 20 ms), idle removal (15 ms idle period) followed by a new request. The event order of every run is recorded; distinct = distinct event orders (lookup start/end, each caller's completion, stop, drop) seen."),
+        format!("{n} runs of the real MultiPathManager with its real worker tasks (public API, scripted PathFetcher whose lookups take 0-7 scheduler yields and 0-10 ms and end with paths / empty / error), half on current-thread, half on 4-worker multi-thread tokio runtimes: 1-11 concurrent callers of path() (a quarter trying cached_path() first) with random yields/sleeps before and between calls, in five scenarios: plain (followed by 12 rounds of 4 barrier-released simultaneous first requests for fresh pairs), stop_managing_paths during the wait followed by traffic for other pairs and a new request for the same pair, drop of the last manager handle (workers refetching every 20 ms), idle removal (15 ms idle period) followed by a new request, failing / empty lookups retried every 3-6 ms with 3-9 more callers arriving before, during and between the retries (each must be released; judged on completed lookups, not on the clock). The event order of every run is recorded; distinct = distinct event orders (lookup start/end, each caller's completion, stop, drop) seen."),
         vec![
             "a caller still pending 10 s after the last lookup finished on an otherwise idle runtime is reported as not released; if a lookup is still running at that point the run is not judged",
             "schedules are those the tokio runtimes produce under injected yields/sleeps; no exhaustive schedule enumeration (no loom/shuttle model of the crate's tasks)",
